@@ -540,6 +540,39 @@ func (c *Check) fixedC13() []*plan.Plan {
 			run++
 		}
 	}
+	// pagination-focused: pages with pagers under LogPagination / LogEverything and both algorithms
+	{
+		n := 0
+		want := 40
+		if c.tier == "thorough" {
+			want = 300
+		}
+		for i := 0; n < want && i < 4000; i++ {
+			var d gen.GenDoc
+			if i%3 == 0 {
+				d = gen.PagerDoc(uint64(0x13C0 + i))
+			} else {
+				d = gen.Document(uint64(0x13D0 + i*53))
+				has := false
+				for _, f := range d.Features {
+					if strings.HasPrefix(f, "pager-") || f == "next-anchor" || f == "prev-anchor" {
+						has = true
+					}
+				}
+				if !has || d.URL == "" || len(d.Bytes) > 40000 {
+					continue
+				}
+			}
+			n++
+			c.noteDoc(d)
+			for k, flags := range []uint{8, 30} {
+				for algo := uint(0); algo < 2; algo++ {
+					out = append(out, c.c13Variant(run, uint64(3000+i), d, d.URL, algo, false, flags, []string{"file", "null"}[k], nil, "Apply"))
+					run++
+				}
+			}
+		}
+	}
 	for di, d := range gen.BigDocs() {
 		c.noteDoc(d)
 		for k, flags := range []uint{2, 4, 8, 16, 30} {
